@@ -11,6 +11,7 @@ import (
 	"net/url"
 	"os"
 	"path/filepath"
+	"strings"
 	"syscall"
 	"time"
 
@@ -162,6 +163,15 @@ func init() {
 				if failing && (string(st.Health) != "down" || st.LastError == "") {
 					r.Violate("C13:health-after-failure:"+cs.Kind, "truthful-health", fmt.Sprintf("%+v: health %q error %q after a failed scrape", cs, st.Health, st.LastError), idx, rp("truthful-health", ""))
 				}
+				// the recorded reason is the reason of THIS failure (the cases run one after the other on one
+				// sidecar, so failures of different kinds follow each other without a success in between)
+				if failing {
+					want := map[string]string{"status-404": "404", "status-500": "500", "status-204": "204", "transport-error": "connection refused (scripted)",
+						"stop-scrape": "quota exceeded", "bad-gzip-header": "gzip"}[cs.Kind]
+					if want != "" && !strings.Contains(st.LastError, want) {
+						r.Violate("C13:stale-error:"+cs.Kind, "truthful-health", fmt.Sprintf("%+v: the recorded error is %q, this scrape failed with %q", cs, st.LastError, want), idx, rp("truthful-health", ""))
+					}
+				}
 				if !failing && (string(st.Health) != "up" || st.LastError != "") {
 					r.Violate("C13:health-after-success:"+cs.Kind, "truthful-health", fmt.Sprintf("%+v: health %q error %q after a successful scrape", cs, st.Health, st.LastError), idx, rp("truthful-health", ""))
 				}
@@ -209,6 +219,61 @@ func init() {
 				serve = func(req *http.Request) rig.Answer { return rig.Answer{Body: small} }
 			})
 			_ = sc.CM.UpdateExtraConfig(prom.ExtraConfig{})
+			// failures of different kinds following each other without a success in between, on one sidecar: after
+			// each one the recorded reason is that of the latest failure (all orders of three kinds)
+			if c.Part == 0 && assigned {
+				type fk struct {
+					name, want string
+					prep      func()
+				}
+				kinds := []fk{
+					{"status-503", "503", func() { serve = func(req *http.Request) rig.Answer { return rig.Answer{Status: 503} } }},
+					{"status-404", "404", func() { serve = func(req *http.Request) rig.Answer { return rig.Answer{Status: 404} } }},
+					{"transport-error", "connection refused (scripted)", func() {
+						serve = func(req *http.Request) rig.Answer { return rig.Answer{Err: errors.New("connection refused (scripted)")} }
+					}},
+					{"stop-scrape", "quota exceeded", func() {
+						_ = sc.CM.UpdateExtraConfig(prom.ExtraConfig{StopScrapeReason: "quota exceeded"})
+						serve = func(req *http.Request) rig.Answer { return rig.Answer{Body: small} }
+					}},
+				}
+				for a := range kinds {
+					for b := range kinds {
+						for d := range kinds {
+							if a == b || b == d {
+								continue
+							}
+							idx++
+							ok(small, false)()
+							resp, err := cli.Get(rig.ProxyURL("j1", 1, "http", "t1:80", "/metrics", nil))
+							if err == nil {
+								io.Copy(io.Discard, resp.Body)
+								resp.Body.Close()
+							}
+							var names []string
+							for _, k := range []fk{kinds[a], kinds[b], kinds[d]} {
+								_ = sc.CM.UpdateExtraConfig(prom.ExtraConfig{})
+								k.prep()
+								names = append(names, k.name)
+								resp, err := cli.Get(rig.ProxyURL("j1", 1, "http", "t1:80", "/metrics", nil))
+								if err == nil {
+									io.Copy(io.Discard, resp.Body)
+									resp.Body.Close()
+								}
+								r.Transitions++
+								st := sc.TM.TargetsInfo().Status[1]
+								if string(st.Health) != "down" || !strings.Contains(st.LastError, k.want) {
+									r.Violate("C13:stale-error:consecutive-failures", "truthful-health", fmt.Sprintf("after a success and the failures %v: health %q, recorded error %q, the last scrape failed with %q", names, st.Health, st.LastError, k.want), idx,
+										&c13Replay{Property: "C13", Clause: "truthful-health", Case: c13Case{Kind: strings.Join(names, ","), Assigned: true}, Detail: st.LastError})
+									break
+								}
+							}
+							_ = sc.CM.UpdateExtraConfig(prom.ExtraConfig{})
+							r.States++
+						}
+					}
+				}
+			}
 			// a transient break: the first response breaks off at byte `cut`, any further request of the same
 			// scrape (a retry inside the proxy) is served completely. Prometheus must see a failure or
 			// exactly the full payload - never a concatenation
